@@ -581,13 +581,18 @@ func (e *Evaluator) evalBinaryExpr(expr *ExprBinary) (*Cell, error) {
 	switch expr.OpToken.Tag {
 	case LSquare, Dot:
 		if left.Value.Tag == ValueUnknown {
+			// nothing is set here yet, so there is no member to find. reading must
+			// not change the value: it becomes an array or an object only if the
+			// member is assigned to, see createSpeculativeObjects
+			memberVal := NewValue(nil)
 			if right.Value.Tag == ValueNum {
-				// if it's unknown and the rhs is a number, make it an array
-				left.Value = NewArray()
+				memberVal.Num = right.Value.Num
 			} else {
-				// otherwise make it an object
-				left.Value = NewObject()
+				rightStr := right.Value.String()
+				memberVal.Str = &rightStr
 			}
+			memberVal.ParentObj = &left.Value
+			return NewCell(memberVal), nil
 		}
 
 		member, err := left.Value.GetMember(right.Value)
@@ -756,7 +761,15 @@ func (e *Evaluator) createSpeculativeObjects(specObj *Cell) (*Cell, error) {
 	}
 
 	var objToSet *Value
-	if parent.Tag == ValueNil {
+	if parent.Tag == ValueUnknown {
+		// an unset value becomes an array for a numeric key, an object otherwise
+		if memberToSet.Tag == ValueNum {
+			*parent = NewArray()
+		} else {
+			*parent = NewObject()
+		}
+		objToSet = parent
+	} else if parent.Tag == ValueNil {
 		newParent, err := e.createSpeculativeObjects(NewCell(*parent))
 		if err != nil {
 			return nil, err
